@@ -86,29 +86,52 @@ ChainPaths == {<<Root, Idx(<<AiS(IxL(-1), IxL(0))>>)>>, <<Root, Idx(<<AiI(IxN(0)
                <<Root, BrW, FilterSt(EBin("gt", EPaths(<<Cur, Dot(ka)>>), EVal(PNum(u1))))>>, <<Root, BrW, Dot(ka)>>,
                <<Root, FilterSt(EExists(<<Cur, Dot(ka)>>))>>}
 
-\* every step enabled in the current state (arguments drawn from the current documents)
-StepsFrom(rg, rp) ==
-  UNION {
-    LET x == rg[i] IN
-      {St("strip_nulls", <<i>>, d, NoArgS), St("array_distinct", <<i>>, d, NoArgS), St("object_keys", <<i>>, d, NoArgS),
-       St("to_string", <<i>>, i, NoArgS), St("to_pretty_string", <<i>>, i, NoArgS)}
-      \cup {St("delete_by_name", <<i>>, d, [n |-> n]) : n \in NameArgs(x)}
-      \cup {St("get_by_name", <<i>>, d, [n |-> n, ic |-> c]) : n \in NameArgs(x), c \in {0, 1}}
-      \cup {St("delete_by_index", <<i>>, d, [i |-> k]) : k \in IndexArgs(x)}
-      \cup {St("get_by_index", <<i>>, d, [i |-> k]) : k \in 0..Width1(x)}
-      \cup {St("delete_by_keypath", <<i>>, d, [kp |-> p]) : p \in KPaths(x, 2)}
-      \cup {St("get_by_keypath", <<i>>, d, [kp |-> p]) : p \in KPaths(x, 2)}
-      \cup {St(f, <<i>>, d, [keys |-> ks]) : f \in {"object_delete", "object_pick"}, ks \in KeyLists(x)}
-      \cup {St("select", <<i>>, d, [path |-> p, mode |-> m]) : p \in ChainPaths, m \in {"first", "array", "mixed"}}
-      \cup UNION {
-             {St(f, <<i, j>>, d, NoArgS) : f \in {"concat", "array_intersection", "array_except"}}
-             \* the builders take JSONB parts only ("assuming that the input values is valid JSONB data")
-             \cup (IF rp[i] = "bin" /\ rp[j] = "bin" THEN {St("build_array", <<i, j>>, d, NoArgS)} ELSE {})
-             \cup {St("array_insert", <<i, j>>, d, [pos |-> k]) : k \in IndexArgs(x)}
-             \cup {St("object_insert", <<i, j>>, d, [n |-> n, upd |-> u]) : n \in PresentKeys(x) \cup {ka, <<122>>}, u \in {0, 1}}
-             \cup (IF rp[i] = "bin" /\ rp[j] = "bin" THEN {St("build_object", <<i, j>>, d, [keys |-> ks]) : ks \in {<<ka, kb>>, <<kb, ka>>, <<ka, ka>>}} ELSE {})
-             : j \in 1..R}
-    : i \in 1..R, d \in 1..R}
+\* the steps of one kind enabled for source registers i, j and destination d (arguments drawn from
+\* the current documents)
+Kinds == {"unary", "del_name", "get_name", "del_index", "get_index", "del_kp", "get_kp", "keysets", "select", "binary", "insert", "oinsert", "build"}
+KindSteps(kind, i, j, d, rg, rp) ==
+  LET x == rg[i] IN
+  CASE kind = "unary" -> {St("strip_nulls", <<i>>, d, NoArgS), St("array_distinct", <<i>>, d, NoArgS), St("object_keys", <<i>>, d, NoArgS),
+                          St("to_string", <<i>>, i, NoArgS), St("to_pretty_string", <<i>>, i, NoArgS)}
+    [] kind = "del_name" -> {St("delete_by_name", <<i>>, d, [n |-> n]) : n \in NameArgs(x)}
+    [] kind = "get_name" -> {St("get_by_name", <<i>>, d, [n |-> n, ic |-> c]) : n \in NameArgs(x), c \in {0, 1}}
+    [] kind = "del_index" -> {St("delete_by_index", <<i>>, d, [i |-> k]) : k \in IndexArgs(x)}
+    [] kind = "get_index" -> {St("get_by_index", <<i>>, d, [i |-> k]) : k \in 0..Width1(x)}
+    [] kind = "del_kp" -> {St("delete_by_keypath", <<i>>, d, [kp |-> p]) : p \in KPaths(x, 2)}
+    [] kind = "get_kp" -> {St("get_by_keypath", <<i>>, d, [kp |-> p]) : p \in KPaths(x, 2)}
+    [] kind = "keysets" -> {St(f, <<i>>, d, [keys |-> ks]) : f \in {"object_delete", "object_pick"}, ks \in KeyLists(x)}
+    [] kind = "select" -> {St("select", <<i>>, d, [path |-> p, mode |-> m]) : p \in ChainPaths, m \in {"first", "array", "mixed"}}
+    [] kind = "binary" -> {St(f, <<i, j>>, d, NoArgS) : f \in {"concat", "array_intersection", "array_except"}}
+    [] kind = "insert" -> {St("array_insert", <<i, j>>, d, [pos |-> k]) : k \in IndexArgs(x)}
+    [] kind = "oinsert" -> {St("object_insert", <<i, j>>, d, [n |-> n, upd |-> u]) : n \in PresentKeys(x) \cup {ka, <<122>>}, u \in {0, 1}}
+    \* the builders take JSONB parts only ("assuming that the input values is valid JSONB data")
+    [] kind = "build" -> IF rp[i] = "bin" /\ rp[j] = "bin"
+                         THEN {St("build_array", <<i, j>>, d, NoArgS)} \cup {St("build_object", <<i, j>>, d, [keys |-> ks]) : ks \in {<<ka, kb>>, <<kb, ka>>, <<ka, ka>>}}
+                         ELSE {}
+
+\* every step enabled in the current state
+StepsFrom(rg, rp) == UNION {KindSteps(k, i, j, d, rg, rp) : k \in Kinds, i \in 1..R, j \in 1..R, d \in 1..R}
+
+\* one enabled step drawn at random: a kind, the registers, then an argument (a random walk never needs
+\* the whole set of enabled steps)
+RECURSIVE Nodes(_)
+Nodes(d) == CASE d.k = "arr" -> 1 + SumSeq([i \in 1..Len(d.a) |-> Nodes(d.a[i])])
+              [] d.k = "obj" -> 1 + SumSeq([i \in 1..Len(d.o) |-> Nodes(d.o[i][2])])
+              [] OTHER -> 1
+MaxNodes == 60
+Candidate(rg, rp) ==
+  LET k == RandomElement(Kinds)
+      i == RandomElement(1..R)  j == RandomElement(1..R)  d == RandomElement(1..R)
+      S == KindSteps(k, i, j, d, rg, rp)
+  IN IF S = {} THEN St("strip_nulls", <<i>>, d, NoArgS) ELSE RandomElement(S)
+\* documents are kept small (a walk that keeps concatenating a register with itself would double it
+\* at every step): a candidate whose result is too large is redrawn, then replaced by an extraction
+SmallEnough(s, rg) == LET r == ApplyStep(s, rg) IN r.t \notin {"doc", "text"} \/ Nodes(r.v) <= MaxNodes
+\* (the candidates are bound by \E over singleton sets: a LET definition would be re-evaluated, and so
+\* re-drawn, at every use)
+PickSmall(k1, k2, k3, rg) ==
+  IF SmallEnough(k1, rg) THEN k1 ELSE IF SmallEnough(k2, rg) THEN k2 ELSE IF SmallEnough(k3, rg) THEN k3
+  ELSE St("get_by_index", <<1>>, 1, [i |-> 0])
 
 \* a random walk takes one randomly chosen enabled step where exhaustive exploration takes all
 Chosen(S) == IF Walkers = 0 THEN S ELSE {RandomElement(S)}
@@ -120,8 +143,11 @@ Begin ==
   /\ UNCHANGED <<buf, hist, w, rep>>
 DoStep ==
   /\ start # <<>> /\ Len(hist) < ChainLen
-  /\ \E s \in Chosen(StepsFrom(reg, rep)) :
-       LET r == ApplyStep(s, reg)
+  /\ \E k1 \in (IF Walkers = 0 THEN StepsFrom(reg, rep) ELSE {Candidate(reg, rep)}) :
+     \E k2 \in (IF Walkers = 0 THEN {k1} ELSE {Candidate(reg, rep)}) :
+     \E k3 \in (IF Walkers = 0 THEN {k1} ELSE {Candidate(reg, rep)}) :
+       LET s == IF Walkers = 0 THEN k1 ELSE PickSmall(k1, k2, k3, reg)
+           r == ApplyStep(s, reg)
        IN /\ hist' = Append(hist, s)
           /\ reg' = IF r.t \in {"doc", "text"} THEN [reg EXCEPT ![s.dst] = r.v] ELSE reg
           /\ rep' = IF r.t = "doc" THEN [rep EXCEPT ![s.dst] = "bin"] ELSE IF r.t = "text" THEN [rep EXCEPT ![s.dst] = "text"] ELSE rep
